@@ -64,6 +64,64 @@ class Source:
         return s + 1, e + 1, list(self.lines[s : e + 1]), attrs
 
 
+def crate_imports(src):
+    """name -> module path, for every leaf of the file's column-0 `use crate::..;` statements (test modules are indented
+    and never match)."""
+    text = "\n".join(src.lines)
+    out = {}
+    for m in re.finditer(r"(?m)^use crate::((?:[^;]|\n)*?);", text):
+        body = re.sub(r"\s+", "", m.group(1))
+
+        def walk(prefix, t):
+            # t is `a::b::{x,y::{z}}` or `a::b::x` or a comma list inside braces
+            depth, cur, parts = 0, "", []
+            for ch in t:
+                if ch == "{":
+                    depth += 1
+                elif ch == "}":
+                    depth -= 1
+                if ch == "," and depth == 0:
+                    parts.append(cur); cur = ""
+                else:
+                    cur += ch
+            if cur:
+                parts.append(cur)
+            for part in parts:
+                if "{" in part:
+                    head, rest = part.split("{", 1)
+                    walk(prefix + [x for x in head.split("::") if x], rest[: rest.rindex("}")])
+                else:
+                    segs = [x for x in part.split("::") if x]
+                    if segs:
+                        out[segs[-1]] = "::".join(prefix + segs[:-1])
+
+        walk([], body)
+    return out
+
+
+def guard_bindings(src, expected, own=()):
+    """The woven copy binds the callees of a function by NAME to the functions under contract.  That is the binding the
+    compiler makes only if the file imports each callee from the expected module and does not define an item of that name
+    itself (seeded change evade_5 shadowed an import with a private function).  `own`: callee names that ARE defined in this file."""
+    imports = crate_imports(src)
+    local = set()
+    for l in src.lines:
+        m = re.match(r"^(?:pub(?:\([a-z]+\))? )?(?:fn|macro_rules!|const|static) (\w+)", l)
+        if m:
+            local.add(m.group(1))
+    for name, module in expected.items():
+        if name in own:
+            if name not in local:
+                raise LostAnchor(f"{src.rel}: `{name}` is expected to be defined in this file")
+            if name in imports:
+                raise LostAnchor(f"{src.rel}: `{name}` is defined here AND imported from {imports[name]}")
+            continue
+        if name in local:
+            raise LostAnchor(f"{src.rel}: defines its own `{name}`, which shadows the function under contract ({module}::{name}): the woven copy would verify a different callee than the one that runs")
+        if imports.get(name) != module:
+            raise LostAnchor(f"{src.rel}: `{name}` is expected to be imported from `{module}`, found `{imports.get(name)}`")
+
+
 def sha(lines):
     return hashlib.sha256("\n".join(lines).encode()).hexdigest()
 
